@@ -228,7 +228,7 @@ func rdParseAuthority(a, scheme string) resolved {
 			nonASCII = true
 		}
 	}
-	host = strings.ToLower(host) // ASCII lower-casing only matters; non-ASCII bytes untouched by the monitor
+	host = rdASCIILower(host) // ASCII lower-casing ONLY: a browser maps other letters by IDNA (İ, K, ſ do not become i, k, s of the same host)
 	if nonASCII {
 		// IDNA mapping is not modelled: the textual host is reported and judged as written
 		return resolved{kind: "unmodelled", scheme: scheme, host: host, port: eff}
@@ -242,6 +242,17 @@ func rdParseAuthority(a, scheme string) resolved {
 		return resolved{kind: "ipv4", scheme: scheme, host: host, port: eff}
 	}
 	return resolved{kind: "abs", scheme: scheme, host: host, port: eff}
+}
+
+// rdASCIILower lower-cases A-Z and leaves every other byte alone (strings.ToLower would fold U+0130, U+212A, … onto ASCII letters)
+func rdASCIILower(s string) string {
+	b := []byte(s)
+	for i, c := range b {
+		if c >= 'A' && c <= 'Z' {
+			b[i] = c + 32
+		}
+	}
+	return string(b)
 }
 
 func isHexByte(b byte) bool {
@@ -317,7 +328,7 @@ func wlAdmits(entry string, r resolved) bool {
 	} else if strings.HasPrefix(eh, ".") {
 		sub, d = true, eh[1:]
 	}
-	d = strings.ToLower(d)
+	d = rdASCIILower(d)
 	hostOK := false
 	if r.v6 || strings.Contains(d, ":") {
 		hostOK = r.host == d
@@ -426,6 +437,7 @@ var rdTokens = []string{"/", "\\", ".", "..", " ", "\t", "\n", "\v", "\f", "\r",
 var rdCoreTokens = []string{"/", "\\", ".", "..", " ", "\t", "\n", "\v", "\f", "\r", "\xc2\xa0", "%2f", "%5c", "@", ":", "?", "#", "a"}
 
 var rdWhitelists = [][]string{nil, {"good.com"}, {".good.com"}, {"*.good.com"}, {"good.com:8443"}, {"good.com:*"}, {"[::1]:*"}, {".good.com", ""}, {"", ":8443"},
+	{"disk.good.com", ".disk.good.com:*"}, // letters that other scripts' capitals fold onto (İ, K, ſ)
 	{tHost, "good.com"}} // (the deployment's own host on the whitelist: absolute URLs to itself are allowed — and stay absolute)
 
 var rdCorpus = []string{
@@ -447,6 +459,9 @@ var rdCorpus = []string{
 	"https://good.com//evil.com/login", "https://good.com/\\evil.com/x", "https://good.com///evil.com", "https://" + tHost + "//evil.com/login", "http://" + tHost + "/\\evil.com", "https://" + tHost + "/ok?x=1",
 	// '?', '~', '>' at every alignment of a 3-byte group (a state or hidden field carried in another alphabet cuts or alters them)
 	"/a?x=1", "/ab?x=1", "/abc?x=1", "/a~b", "/ab~c", "/abc~d", "/p?q=>>>&r=???&s=~~~", "/wiki/Main_Page?action=history", "/pq?~>?~>", "/pqr?~>?~>?", "/pqrs?~>?~>??",
+	// letters of OTHER scripts that Go's case mappings fold onto ASCII letters of a whitelisted host: another host to a browser
+	"https://disk.good.com/", "https://d\u0130sk.good.com/", "https://dis\u212a.good.com/x", "https://di\u017fk.good.com/", "https://a.d\u0130sk.good.com:9/", "https://DISK.good.com/",
+	"https://d\u0131sk.good.com/", "https://disk.good.com\u3002evil.com/", "https://disk.good.com\uff0eevil.com/",
 	"/oauth2/callback", "/oauth2/sign_in", "/oauth2", "/oauth2x", "/\xc2\xa0/evil.com", "/\xe2\x80\xa8/evil.com", "/\xe9", "/a\xff/../b", "/x/../../y", "a/b/../c", "../x", "./x", "x//y/",
 }
 
